@@ -219,3 +219,38 @@ Theorem connect_disconnect_connect pre faults :
   snd (mqtt_disconnect s1) = ConnOk /\ s2 = mc_init
   /\ mqtt_connect pre false faults s2 = mqtt_connect pre false faults mc_init.
 Proof. cbn. repeat split. Qed.
+
+(* over the whole life of a client — any interleaving of connects, disconnects, deliveries
+   and reads: what the reads returned, followed by what is still queued, is exactly what was
+   queued at the start followed by what the receive loops accepted, in arrival order.  So
+   every received message or error is read once, in order, also across reconnects; nothing
+   is dropped by a disconnect and nothing is read twice. *)
+Theorem life_fifo ops : forall s,
+  gots (snd (life_run s ops)) ++ ml_queue (fst (life_run s ops)) = ml_queue s ++ life_received s ops.
+Proof.
+  induction ops as [|o r IH]; intros s; cbn [life_run life_received gots flat_map snd fst].
+  - rewrite app_nil_r. reflexivity.
+  - destruct (life_step s o) as [s1 out] eqn:E1. destruct (life_run s1 r) as [s2 outs] eqn:E2.
+    cbn [snd fst gots flat_map]. specialize (IH s1). rewrite E2 in IH. cbn [snd fst] in IH.
+    change (flat_map (fun o0 => match o0 with LGot e => [e] | _ => [] end) outs) with (gots outs).
+    destruct o as [| |e|]; cbn [life_step] in E1.
+    + destruct (ml_connected s); injection E1 as <- <-; cbn [app]; rewrite IH; reflexivity.
+    + destruct (ml_connected s); injection E1 as <- <-; cbn [app]; rewrite IH; reflexivity.
+    + destruct (ml_connected s && ml_receiving s); injection E1 as <- <-; cbn [app]; rewrite IH; cbn [ml_queue].
+      * rewrite <- app_assoc. reflexivity.
+      * reflexivity.
+    + destruct (ml_queue s) as [|e q] eqn:Eq; injection E1 as <- <-; cbn [app]; rewrite IH; cbn [ml_queue].
+      * rewrite Eq. reflexivity.
+      * reflexivity.
+Qed.
+
+(* a read returns nothing only when everything received so far has been read *)
+Theorem life_read_pending s : snd (life_step s LRead) = LPending <-> ml_queue s = [].
+Proof. cbn [life_step]. destruct (ml_queue s); cbn; split; intros H; try reflexivity; discriminate H. Qed.
+
+(* a broker error ends reception on that connection only: after disconnect + connect deliveries are received again *)
+Theorem life_reconnect_receives s e :
+  ml_connected s = true ->
+  let s2 := fst (life_step (fst (life_step s LDisconnect)) LConnect) in
+  ml_queue (fst (life_step s2 (LDeliver e))) = ml_queue s ++ [entry_of e].
+Proof. intros H. cbn [life_step]. rewrite H. cbn. reflexivity. Qed.
